@@ -151,3 +151,192 @@ theorem foldGo_spec {α} (k : Nat) (cs : List (List α)) (hk : k ≤ cs.length) 
       · subst h; simp [foldGo]
 
 end LinfaSpec.Fold
+
+namespace LinfaSpec.Fold
+
+/-- `assist_swap_array2!` on a buffer split as `A ++ B ++ C ++ D` with `A` = block 0,
+`C` = block `i`: the two blocks are exchanged, nothing else moves. -/
+theorem swapBlock_decomp {α} (A B C D : List α) (i fs s : Nat) (hi : 0 < i)
+    (hA : A.length = fs * s) (hB : B.length = fs * s * (i - 1)) (hC : C.length = fs * s) :
+    swapBlock (A ++ B ++ C ++ D) i fs s = C ++ B ++ A ++ D := by
+  have hstart : (A ++ B).length = fs * s * i := by
+    rw [List.length_append, hA, hB]
+    obtain ⟨j, rfl⟩ : ∃ j, i = j + 1 := ⟨i - 1, by omega⟩
+    simp [Nat.mul_succ]; omega
+  unfold swapBlock
+  simp only [show ¬ i = 0 by omega, if_false]
+  have e1 : A ++ B ++ C ++ D = (A ++ B) ++ (C ++ D) := by simp
+  have t1 : List.take (fs * s * i) (A ++ B ++ C ++ D) = A ++ B := by
+    rw [e1]; exact List.take_left' hstart
+  have d1 : List.drop (fs * s * i) (A ++ B ++ C ++ D) = C ++ D := by
+    rw [e1]; exact List.drop_left' hstart
+  have t2 : List.take (fs * s) (A ++ B ++ C ++ D) = A := by
+    have : A ++ B ++ C ++ D = A ++ (B ++ C ++ D) := by simp
+    rw [this]; exact List.take_left' hA
+  have d2 : List.drop (fs * s * i + fs * s) (A ++ B ++ C ++ D) = D := by
+    have : A ++ B ++ C ++ D = (A ++ B ++ C) ++ D := by simp
+    rw [this]; apply List.drop_left'
+    rw [List.length_append, hstart, hC]
+  rw [t1, d1, t2, d2, List.take_left' hC, List.drop_left' hA]
+
+/-- swapping twice restores the buffer -/
+theorem swapBlock_involutive {α} (buf : List α) (i fs s : Nat)
+    (hlen : (i + 1) * (fs * s) ≤ buf.length) :
+    swapBlock (swapBlock buf i fs s) i fs s = buf := by
+  by_cases hi : i = 0
+  · simp [swapBlock, hi]
+  · -- split the buffer at w, w*i, w*i + w
+    let w := fs * s
+    have hw : w = fs * s := rfl
+    let A := buf.take w
+    let B := (buf.drop w).take (w * (i - 1))
+    let C := (buf.drop (w * i)).take w
+    let D := buf.drop (w * i + w)
+    have hsplit : buf = A ++ B ++ C ++ D := by
+      simp only [A, B, C, D]
+      have hwi : w * i = w + w * (i - 1) := by
+        obtain ⟨j, rfl⟩ : ∃ j, i = j + 1 := ⟨i - 1, by omega⟩
+        simp [Nat.mul_succ]; omega
+      have e1 : buf.drop (w * i) = (buf.drop w).drop (w * (i - 1)) := by
+        rw [List.drop_drop, hwi]
+      have e2 : buf.drop (w * i + w) = ((buf.drop w).drop (w * (i - 1))).drop w := by
+        rw [List.drop_drop, List.drop_drop, hwi, Nat.add_assoc]
+      rw [e2, e1, List.append_assoc, List.append_assoc, List.take_append_drop,
+        List.take_append_drop, List.take_append_drop]
+    have hle : (i + 1) * w ≤ buf.length := hlen
+    have hiw : w * i + w ≤ buf.length := by rw [Nat.add_mul] at hle; rw [Nat.mul_comm]; omega
+    have hA : A.length = fs * s := by
+      simp only [A, List.length_take]
+      have : w ≤ buf.length := by omega
+      omega
+    have hB : B.length = fs * s * (i - 1) := by
+      simp only [B, List.length_take, List.length_drop]
+      have hwi : w * i = w + w * (i - 1) := by
+        obtain ⟨j, rfl⟩ : ∃ j, i = j + 1 := ⟨i - 1, by omega⟩
+        simp [Nat.mul_succ]; omega
+      rw [← hw]; omega
+    have hC : C.length = fs * s := by
+      simp only [C, List.length_take, List.length_drop]; omega
+    rw [hsplit, swapBlock_decomp A B C D i fs s (by omega) hA hB hC,
+      swapBlock_decomp C B A D i fs s (by omega) hC hB hA]
+
+end LinfaSpec.Fold
+
+namespace LinfaSpec.Fold
+
+theorem iterGo_spec {α β} (fs p t k : Nat) (r : List α) (g : List β)
+    (hr : k * (fs * p) ≤ r.length) (hg : k * (fs * t) ≤ g.length) :
+    ∀ fuel i, i + fuel = k →
+      iterGo fs p t fuel i r g =
+        ((List.range fuel).map fun d =>
+            ((swapBlock r (i + d) fs p).drop (fs * p), (swapBlock g (i + d) fs t).drop (fs * t)),
+          r, g) := by
+  intro fuel
+  induction fuel with
+  | zero => intro i _; simp [iterGo]
+  | succ f ih =>
+    intro i hik
+    have h1 : (i + 1) * (fs * p) ≤ r.length :=
+      Nat.le_trans (Nat.mul_le_mul_right _ (by omega)) hr
+    have h2 : (i + 1) * (fs * t) ≤ g.length :=
+      Nat.le_trans (Nat.mul_le_mul_right _ (by omega)) hg
+    simp only [iterGo, swapBlock_involutive r i fs p h1, swapBlock_involutive g i fs t h2,
+      ih (i + 1) (by omega)]
+    rw [List.range_succ_eq_map, List.map_cons, List.map_map]
+    congr 2
+    apply List.map_congr_left
+    intro d _
+    simp only [Function.comp, Nat.succ_eq_add_one]
+    have : i + 1 + d = i + (d + 1) := by omega
+    rw [this]
+
+theorem take_flatten_uniform {α} (rows : List (List α)) (p m : Nat)
+    (h : ∀ r ∈ rows, r.length = p) : (rows.flatten).take (m * p) = (rows.take m).flatten := by
+  induction rows generalizing m with
+  | nil => simp
+  | cons r rs ih =>
+    cases m with
+    | zero => simp
+    | succ m =>
+      have hr : r.length = p := h r (by simp)
+      have hrs : ∀ x ∈ rs, x.length = p := fun x hx => h x (by simp [hx])
+      rw [List.flatten_cons, List.take_succ_cons, List.flatten_cons, ← ih m hrs]
+      have e : (m + 1) * p = r.length + m * p := by rw [Nat.succ_mul, hr]; omega
+      rw [e, List.take_length_add_append]
+
+theorem drop_flatten_uniform {α} (rows : List (List α)) (p m : Nat)
+    (h : ∀ r ∈ rows, r.length = p) : (rows.flatten).drop (m * p) = (rows.drop m).flatten := by
+  induction rows generalizing m with
+  | nil => simp
+  | cons r rs ih =>
+    cases m with
+    | zero => simp
+    | succ m =>
+      have hr : r.length = p := h r (by simp)
+      have hrs : ∀ x ∈ rs, x.length = p := fun x hx => h x (by simp [hx])
+      rw [List.flatten_cons, List.drop_succ_cons, ← ih m hrs]
+      have e : (m + 1) * p = r.length + m * p := by rw [Nat.succ_mul, hr]; omega
+      rw [e, List.drop_length_add_append]
+
+/-- the block swap on the flat row-major buffer is the block swap on whole rows:
+row boundaries are mapped to row boundaries -/
+theorem swapBlock_flatten {α} (rows : List (List α)) (p i fs : Nat)
+    (h : ∀ r ∈ rows, r.length = p) :
+    swapBlock rows.flatten i fs p = (swapBlock rows i fs 1).flatten := by
+  unfold swapBlock
+  by_cases hi : i = 0
+  · simp [hi]
+  · simp only [hi, if_false, Nat.mul_one, List.flatten_append]
+    have e1 : fs * p * i = (fs * i) * p := by
+      rw [Nat.mul_assoc, Nat.mul_comm p i, ← Nat.mul_assoc]
+    have e2 : fs * p * i + fs * p = (fs * i + fs) * p := by rw [Nat.add_mul, e1]
+    have hd : ∀ m, ∀ r ∈ rows.drop m, r.length = p := fun m r hr => h r (List.mem_of_mem_drop hr)
+    have ht : ∀ m, ∀ r ∈ rows.take m, r.length = p := fun m r hr => h r (List.mem_of_mem_take hr)
+    rw [e2, e1, drop_flatten_uniform rows p _ h, drop_flatten_uniform rows p _ h,
+      take_flatten_uniform rows p _ h, take_flatten_uniform rows p _ h,
+      take_flatten_uniform _ p _ (hd _), drop_flatten_uniform _ p _ (ht _)]
+
+/-- rows of the training view of fold `i`: a permutation of the complement of block `i` -/
+theorem swapBlock_drop_perm {α} (rows : List α) (i fs : Nat) (hlen : (i + 1) * fs ≤ rows.length) :
+    ((swapBlock rows i fs 1).drop fs).Perm (rows.take (i * fs) ++ rows.drop ((i + 1) * fs)) := by
+  by_cases hi : i = 0
+  · simp [swapBlock, hi]
+  · have hiw : fs * i + fs ≤ rows.length := by rw [Nat.add_mul] at hlen; rw [Nat.mul_comm]; omega
+    have hwi : fs * i = fs + fs * (i - 1) := by
+      obtain ⟨j, rfl⟩ : ∃ j, i = j + 1 := ⟨i - 1, by omega⟩
+      simp [Nat.mul_succ]; omega
+    let A := rows.take fs
+    let B := (rows.drop fs).take (fs * (i - 1))
+    let C := (rows.drop (fs * i)).take fs
+    let D := rows.drop (fs * i + fs)
+    have hsplit : rows = A ++ B ++ C ++ D := by
+      simp only [A, B, C, D]
+      have e1 : rows.drop (fs * i) = (rows.drop fs).drop (fs * (i - 1)) := by
+        rw [List.drop_drop, hwi]
+      have e2 : rows.drop (fs * i + fs) = ((rows.drop fs).drop (fs * (i - 1))).drop fs := by
+        rw [List.drop_drop, List.drop_drop, hwi, Nat.add_assoc]
+      rw [e2, e1, List.append_assoc, List.append_assoc, List.take_append_drop,
+        List.take_append_drop, List.take_append_drop]
+    have hA : A.length = fs := by simp only [A, List.length_take]; omega
+    have hB : B.length = fs * (i - 1) := by
+      simp only [B, List.length_take, List.length_drop]; omega
+    have hC : C.length = fs := by simp only [C, List.length_take, List.length_drop]; omega
+    have hAB : (A ++ B).length = i * fs := by
+      rw [List.length_append, hA, hB, Nat.mul_comm i fs, hwi]
+    have t1 : rows.take (i * fs) = A ++ B := by
+      conv => lhs; rw [hsplit]
+      have : A ++ B ++ C ++ D = (A ++ B) ++ (C ++ D) := by simp
+      rw [this]; exact List.take_left' hAB
+    have d1 : rows.drop ((i + 1) * fs) = D := by
+      conv => lhs; rw [hsplit]
+      have : A ++ B ++ C ++ D = (A ++ B ++ C) ++ D := by simp
+      rw [this]; apply List.drop_left'
+      rw [List.length_append, hAB, hC, Nat.succ_mul]
+    rw [t1, d1]
+    conv => lhs; rw [hsplit, swapBlock_decomp A B C D i fs 1 (by omega)
+      (by rw [Nat.mul_one]; exact hA) (by rw [Nat.mul_one]; exact hB) (by rw [Nat.mul_one]; exact hC)]
+    have : C ++ B ++ A ++ D = C ++ (B ++ A ++ D) := by simp
+    rw [this, List.drop_left' hC]
+    exact List.Perm.append_right _ List.perm_append_comm
+
+end LinfaSpec.Fold
